@@ -105,6 +105,16 @@ PROPS["C15"] = dict(
     ],
 )
 
+PROPS["C10"] = dict(
+    level="exploration",
+    technique="model-based property testing (rapid state machine) on the LRU store with structural invariants checked after every step",
+    level_text="Generated histories of flights, updates, invalidations, cancellations and clock advances against the real store; size accounting, list/map agreement, pending-entry retention and front-first eviction are re-derived from the store's state after every step.",
+    level_note="Reads the store's unexported fields (in-package test). Eviction order is checked against the store's own recency list (the store only approximates LRU on the lock-free hit path by design). " + LIMITS,
+    units=[
+        U("inpkg", "rueidis", "TestVerif_C10_LRU", T(4000), T(30000, shards=16), steps=40),
+    ],
+)
+
 # ---- END PROPS (new entries go above this line)
 
 # every property without a check is listed here with its reason (kept current while building)
